@@ -125,7 +125,8 @@ class extract_visitor(NodeVisitor):
         body_start = self.make_flow('for', [cur])
         for nn, _idx in get_indexes_for_target(node.target, [], []):
             if not isinstance(nn, Name):
-                continue  # for self.x in ...: / for d[k] in ...:
+                self.visit_in_flow(nn, cur)  # for self.x in ...: / for d[k] in ...:
+                continue
             name = nn  # type: ast.Name
             body_start.add_name(AssignedName(name.id, body_loc(node.body), np(name), node.iter))
         body = self.visit_in_flow(node.body, body_start)
@@ -289,6 +290,7 @@ class extract_visitor(NodeVisitor):
             p = self.make_flow('comp', [p])
             for nn, _idx in get_indexes_for_target(g.target, [], []):
                 if not isinstance(nn, Name):
+                    self.visit_in_flow(nn, pp)
                     continue
                 name = nn  # type: ast.Name
                 name.flow = pp  # type: ignore[attr-defined]
